@@ -1123,9 +1123,10 @@ fn emit_history_src(sink: &mut Sink, env: &Env, user: bool, hops: &[HOp], files:
     }
     probes.push("x1。".to_string());
     let obs = observe_history(env, user, &ops, files, &probes, true);
-    let coq_ops = clist(hops.iter().map(|o| match o {
-        HOp::Conn(lines, _) => format!("OConn {}", Case { base: Base::System(lines.clone()), recs: vec![] }.coq_lines()),
-        HOp::Lex(recs, _) => format!("OLex {}", Case { base: Base::User, recs: recs.clone() }.coq_recs()),
+    let coq_src = |i: usize| if files.get(i).copied().unwrap_or(false) { "SFile" } else { "SBytes" };
+    let coq_ops = clist(hops.iter().enumerate().map(|(i, o)| match o {
+        HOp::Conn(lines, _) => format!("OConn {} {}", coq_src(i), Case { base: Base::System(lines.clone()), recs: vec![] }.coq_lines()),
+        HOp::Lex(recs, _) => format!("OLex {} {}", coq_src(i), Case { base: Base::User, recs: recs.clone() }.coq_recs()),
         HOp::Resolve => "OResolve".to_string(),
         HOp::Compile => "OCompile".to_string(),
     }));
